@@ -72,7 +72,7 @@ WF_CHECKS = ["reachability", "terminal_event", "dead_end"]
 
 def plan(tier, seed):
     n = 16 if tier == "quick" else 64
-    per = 2500 if tier == "quick" else 20000
+    per = 2500 if tier == "quick" else 30000
     return [{"seed": seed * 1000 + i, "n": per} for i in range(n)]
 
 
